@@ -142,10 +142,11 @@ where
         where S: Into<Details>
     {
         let mut h = Header::<&[u8]>::new();
-        h.set_length(21 +
+        h.set_length(
             u16::try_from(
                 data.as_ref().map_or(0, |d| d.as_ref().len())
-            ).map_err(|_| NotificationBuildError::LargePdu)?
+            ).ok().and_then(|len| len.checked_add(21))
+            .ok_or(NotificationBuildError::LargePdu)?
         );
         h.set_type(MsgType::Notification);
 
